@@ -6,7 +6,8 @@
    rung 3 = whole files (C02_full below, stated, not proved: it needs Model/Loader.v). *)
 From LV Require Import Base.Bytes Base.Sx Model.Obj Model.Writer Model.Parser Model.Xref Spec.XrefSpec
   Model.ObjStm Proofs.LexProofs Proofs.XrefProofs Proofs.XrefTableProofs Proofs.ObjStmProofs
-  Spec.RefWriter Proofs.SpellingProofs Proofs.LitStringProofs Proofs.SpellingProofsLit.
+  Spec.RefWriter Proofs.SpellingProofs Proofs.LitStringProofs Proofs.SpellingProofsLit
+  Model.Loader Proofs.RealProofs Proofs.ObjectRtProofs.
 Local Open Scope N_scope.
 
 (* (1) Cross-reference streams.  For ALL field widths (0 = field absent, any positive width, not all three
@@ -154,6 +155,82 @@ Theorem C02_example_spellings :
   w_int 42 true 2 = bs "+0042" /\ integer (bs "+0042" ++ bs "]") = POk 42%Z (bs "]") /\
   space (fill_bytes [FWs 5; FComment (bs "endobj") ECR; FWs 1; FComment [] ECRLF] ++ bs "/X") = bs "/X".
 Proof. repeat split; vm_compute; reflexivity. Qed.
+
+
+(* ---------------------------------------------------------------------------------------------
+   Rung 3: whole files.  STATED, NOT PROVED (a Definition, not a Theorem): it needs the loader model
+   Model/Loader.v (C01) extended by the three features it does not cover yet (indirect Length, object
+   streams, filtered cross-reference streams) and the composition of the rung-1 and rung-2 theorems over
+   the reference writer's layout.  The correspondence run evaluates exactly this statement on the
+   implementation (and on Model/Loader.v where it applies) for every generated (style, document) pair.
+   --------------------------------------------------------------------------------------------- *)
+
+(* same value: reals by their decimal value, strings without their format, dictionaries in file order *)
+Definition dec_value_eq (r1 r2 : bytes) : Prop :=
+  exists n1 d1 f1 n2 d2 f2,
+    r1 = real_text n1 d1 f1 /\ r2 = real_text n2 d2 f2 /\
+    digits_val (d1 ++ f1) * 10 ^ N.of_nat (length f2) = digits_val (d2 ++ f2) * 10 ^ N.of_nat (length f1) /\
+    (n1 = n2 \/ digits_val (d1 ++ f1) = 0).
+Inductive same_value : obj -> obj -> Prop :=
+| sv_null : same_value ONull ONull
+| sv_bool b : same_value (OBool b) (OBool b)
+| sv_int z : same_value (OInt z) (OInt z)
+| sv_real r1 r2 : dec_value_eq r1 r2 -> same_value (OReal r1) (OReal r2)
+| sv_name n : same_value (OName n) (OName n)
+| sv_str s h1 h2 : same_value (OStr s h1) (OStr s h2)
+| sv_ref i g : same_value (ORef i g) (ORef i g)
+| sv_arr l1 l2 : Forall2 same_value l1 l2 -> same_value (OArr l1) (OArr l2)
+| sv_dict d1 d2 : Forall2 (fun a b => fst a = fst b /\ same_value (snd a) (snd b)) d1 d2 -> same_value (ODict d1) (ODict d2)
+| sv_stream d1 d2 c : Forall2 (fun a b => fst a = fst b /\ same_value (snd a) (snd b)) d1 d2 ->
+                      same_value (OStream d1 c) (OStream d2 c).
+
+(* abstract documents in the claimed domain: one object per number (single revision), numbers 1..2^32-2,
+   generations below 2^16, direct objects the data model can hold (c14's obj_wf), streams only at top level
+   with a Length entry that is the data length, written directly or as a reference to an integer object of the
+   document; no object typed ObjStm or XRef; version without end-of-line bytes *)
+Definition length_ok (a : adoc) (d : dict) (c : bytes) : Prop :=
+  dict_get d K_Length = Some (OInt (Z.of_nat (length c))) \/
+  exists i g, dict_get d K_Length = Some (ORef i g) /\ In ((i, g), OInt (Z.of_nat (length c))) (a_objs a).
+Definition top_wf (a : adoc) (o : obj) : Prop :=
+  match o with
+  | OStream d c => obj_wf (ODict d) /\ length_ok a d c /\
+                   ~ has_type d (bs "ObjStm") = true /\ ~ has_type d (bs "XRef") = true
+  | _ => obj_wf o
+  end.
+Definition adoc_wf (a : adoc) : Prop :=
+  NoDup (map (fun io => fst (fst io)) (a_objs a)) /\
+  Forall (fun io => 1 <= fst (fst io) /\ fst (fst io) < u32_max /\ snd (fst io) <= u16_max /\ top_wf a (snd io)) (a_objs a) /\
+  obj_wf (ODict (a_trailer a)) /\
+  Forall (fun k => dict_get (a_trailer a) k = None)
+         [bs "Size"; bs "Type"; bs "W"; bs "Index"; bs "Length"; bs "Filter"; bs "DecodeParms"; bs "Prev"; bs "XRefStm"; bs "Encrypt"] /\
+  forallb (fun b => negb (is_eol_byte b)) (a_version a) = true.
+
+(* the numbers of the objects the writer adds for its own purposes: object-stream containers, the xref stream *)
+Definition structural_nums (st : fstyle) : list N :=
+  map os_id (s_ostms st) ++ match s_xref st with XStream x => [xs_id x] | XTable _ => [] end.
+
+Definition C02_full : Prop :=
+  forall (st : fstyle) (a : adoc) (file : bytes),
+    adoc_wf a -> Known_raw_eol st a = false -> Known_deep_parens a = false ->
+    ref_write st a = Some file ->
+    exists d t,
+      load file = LOk d t /\
+      d_version d = a_version a /\
+      (* exactly the objects the file defines, each with the value it defines *)
+      (forall id, In (fst id) (structural_nums st) \/
+                  match lookup (d_objects d) id, lookup (content a) id with
+                  | Some o, Some o' => same_value o' o
+                  | None, None => True
+                  | _, _ => False
+                  end) /\
+      (* the trailer: the document's entries and Size, plus cross-reference stream bookkeeping *)
+      (forall k, In k [bs "Type"; bs "W"; bs "Index"; bs "Length"; bs "Filter"; bs "DecodeParms"] \/
+                 match dict_get (d_trailer d) k, dict_get (a_trailer a ++ [(bs "Size", OInt (Z.of_N (1 + max_num
+                         (map (fun io => fst (fst io)) (a_objs a) ++ structural_nums st))))]) k with
+                 | Some o, Some o' => same_value o' o
+                 | None, None => True
+                 | _, _ => False
+                 end).
 
 (* ---------- non-vacuity ---------- *)
 Definition ex_secs : xsections := [(0, [SFree 0 65535; SInUse 17 0]); (5, [SComp 3 1; SInUse 70000 2])].
